@@ -92,11 +92,11 @@ Definition channel0 : channel :=
 Record conn := { cn_chans : list (N * channel); cn_qos : qosw }.
 #[export] Instance eta_conn : Settable _ := settable! Build_conn <cn_chans; cn_qos>.
 
-Record msg := { m_ex : string; m_key : string; m_mand : bool; m_pers : bool; m_has_header : bool;
+Record msg := { m_mid : N; m_ex : string; m_key : string; m_mand : bool; m_pers : bool; m_has_header : bool;
                 m_hsize : N; m_size : N; m_body : list N; m_dc : N;
                 m_conf : option (N * N * N); m_expected : Z; m_actual : Z }.
 #[export] Instance eta_msg : Settable _ :=
-  settable! Build_msg <m_ex; m_key; m_mand; m_pers; m_has_header; m_hsize; m_size; m_body; m_dc; m_conf; m_expected; m_actual>.
+  settable! Build_msg <m_mid; m_ex; m_key; m_mand; m_pers; m_has_header; m_hsize; m_size; m_body; m_dc; m_conf; m_expected; m_actual>.
 
 Record queue := { q_ready : list N; q_owner : N; q_excl : bool; q_autodel : bool; q_durable : bool; q_active : bool;
                   q_consumers : list (N * N * string); q_cexcl : bool; q_wasconsumed : bool; q_rr : nat; q_call : bool;
@@ -167,7 +167,7 @@ Inductive meth :=
 Inductive label :=
 | LConnect (c : N)
 | LMethod (c h : N) (m : meth)
-| LHeader (c h : N) (size : N) (pers : bool)
+| LHeader (c h : N) (mid : N) (size : N) (pers : bool)
 | LBody (c h : N) (len : N)
 | LConsumerTurn (c h : N) (tag : string)
 | LQueueLoop (q : string)
@@ -252,7 +252,7 @@ Definition matched_queues (direct_first_only : bool) (e : exchange) (key : strin
     if direct_first_only then firstn 1 ms else dedup ms
   | ExFanout => dedup (map b_queue (e_bindings e))
   | ExTopic => dedup (map b_queue (filter (fun b => topic_matches (b_key b) key) (e_bindings e)))
-  | ExHeaders => dedup (map b_queue (filter (fun b => match b_args b with [] => true | _ => false end) (e_bindings e)))
+  | ExHeaders => []  (* the model's messages carry no headers table: MatchHeader returns false for every binding made by queue.bind *)
   end.
 
 Definition args_eqb (a b : list (string * string)) : bool :=
@@ -301,7 +301,7 @@ Definition call_consumers (qu : queue) : queue := if q_active qu then qu <| q_ca
 Definition out1 (c h : N) (f : sframe) : list event := [(c, h, f)].
 Definition content_frames (s : state) (c h : N) (u : N) : list event :=
   match get_msg s u with
-  | Some m => (c, h, SHeader u (m_hsize m) (m_pers m)) :: map (fun l => (c, h, SBody u l)) (m_body m)
+  | Some m => (c, h, SHeader (m_mid m) (m_hsize m) (m_pers m)) :: map (fun l => (c, h, SBody (m_mid m) l)) (m_body m)
   | None => []
   end.
 
@@ -565,6 +565,10 @@ Record fixes := {
   fx_clear_current : bool;      (* F37 repaired: current message cleared once complete *)
   fx_not_impl : bool;           (* F16 repaired: unsupported classes/methods answer NOT_IMPLEMENTED *)
   fx_empty_body : bool;         (* F43 repaired: a message whose header announces 0 bytes is routed at the header *)
+  fx_discard_closing : bool;    (* F36 repaired: frames on a channel the broker is closing are discarded *)
+  fx_nowait : bool;             (* F16 repaired: no-wait requests are not answered *)
+  fx_stage : bool;              (* F14/F15/F48 repaired: class/channel and handshake-order checks *)
+  fx_reopen_resets : bool;      (* F17 repaired: channel.open on a closed channel number starts from a fresh state *)
 }.
 
 Definition consumer_turn (cfg : config) (fx : fixes) (s : state) (c h : N) (tag : string) : state * list event :=
@@ -680,11 +684,12 @@ Definition route_and_push (fx : fixes) (s : state) (c h : N) (u : N) : state * l
       | [] => (add_confirm s c h (m_conf m), if m_mand m then ret else [])
       | _ =>
         let confirm := match get_chan s c h with Some ch => ch_confirm ch | None => false end in
-        let s := if confirm then upd_msg s u (fun m => m <| m_expected := Z.of_nat (List.length qs) |>) else s in
+        let has_meta := match m_conf m with Some _ => true | None => false end in
+        let s := if confirm && has_meta then upd_msg s u (fun m => m <| m_expected := Z.of_nat (List.length qs) |>) else s in
         let s := fold_left (fun s qn =>
                               let s := queue_push s qn u in
                               match get_msg s u with
-                              | Some m => if confirm && (m_actual m =? m_expected m)%Z && negb (m_pers m)
+                              | Some m => if confirm && has_meta && (m_actual m =? m_expected m)%Z && negb (m_pers m)
                                           then add_confirm s c h (m_conf m) else s
                               | None => s
                               end) qs s in
@@ -719,6 +724,20 @@ Definition new_queue (owner : N) (dur excl ad : bool) : queue :=
      q_consumers := []; q_cexcl := false; q_wasconsumed := false; q_rr := O; q_call := false;
      q_len := 0; q_mready := 0; q_munacked := 0; q_mtotal := 0 |}.
 
+Definition meth_ids (m : meth) : N * N :=
+  match m with
+  | MChannelOpen => (20, 10) | MChannelClose => (20, 40) | MChannelCloseOk => (20, 41) | MChannelFlow _ => (20, 20)
+  | MExDeclare _ _ _ _ _ _ _ => (40, 10) | MExDelete _ _ _ => (40, 20)
+  | MQDeclare _ _ _ _ _ _ => (50, 10) | MQBind _ _ _ _ _ => (50, 20) | MQUnbind _ _ _ _ => (50, 50)
+  | MQPurge _ _ => (50, 30) | MQDelete _ _ _ _ => (50, 40)
+  | MQos _ _ _ => (60, 10) | MPublish _ _ _ _ => (60, 40) | MConsume _ _ _ _ _ => (60, 20) | MCancel _ _ => (60, 30)
+  | MGet _ _ => (60, 70) | MAck _ _ => (60, 80) | MNack _ _ _ => (60, 120) | MReject _ _ => (60, 90) | MRecover _ => (60, 110)
+  | MConfirmSelect _ => (85, 10) | MTxSelect => (90, 10)
+  | MConnClose => (10, 50) | MConnCloseOk => (10, 51)
+  end.
+Definition is_conn_class (m : meth) : bool := fst (meth_ids m) =? 10.
+Definition is_chan_close (m : meth) : bool := match m with MChannelClose | MChannelCloseOk => true | _ => false end.
+
 Definition handle_method (cfg : config) (fx : fixes) (s : state) (c h : N) (m : meth) : state * list event * option aerr :=
   match get_chan s c h with
   | None => (s, [], None)
@@ -728,6 +747,12 @@ Definition handle_method (cfg : config) (fx : fixes) (s : state) (c h : N) (m : 
   | MChannelOpen =>
     match ch_status ch with
     | ChOpen => refuse s (ConnErr ChannelErr 20 10)
+    | ChClosed =>
+      let ch := if fx_reopen_resets fx
+                then ch <| ch_dtag := 0 |> <| ch_ctag := 0 |> <| ch_flow := true |> <| ch_cur := None |> <| ch_qos := qos0 |>
+                        <| ch_cqos := qos0 |> <| ch_confirm := false |> <| ch_confirmq := [] |>
+                else ch in
+      ok (set_chan s c h (ch <| ch_status := ChOpen |>)) (out1 c h SChannelOpenOk)
     | _ => ok (set_chan s c h (ch <| ch_status := ChOpen |>)) (out1 c h SChannelOpenOk)
     end
   | MChannelClose =>
@@ -766,7 +791,7 @@ Definition handle_method (cfg : config) (fx : fixes) (s : state) (c h : N) (m : 
       else match existing with
            | Some e =>
              if extype_eqb (e_type e) ty && Bool.eqb (e_durable e) dur && Bool.eqb (e_autodel e) ad && Bool.eqb (e_internal e) internal
-             then ok s (out1 c h SExDeclareOk)
+             then ok s (if fx_nowait fx && nowait then [] else out1 c h SExDeclareOk)
              else refuse s (ChanErr PreconditionFailed 40 10)
            | None =>
              let e := {| e_type := ty; e_durable := dur; e_autodel := ad; e_internal := internal; e_system := false; e_bindings := [] |} in
@@ -792,12 +817,12 @@ Definition handle_method (cfg : config) (fx : fixes) (s : state) (c h : N) (m : 
       | Some qu =>
         if lockerr then refuse s (ChanErr ResourceLocked 50 10)
         else if Bool.eqb (q_durable qu) dur && Bool.eqb (q_autodel qu) ad && Bool.eqb (q_excl qu) excl
-             then ok s (out1 c h (SQDeclareOk name (Z.to_N (q_len qu) mod two32) (N.of_nat (List.length (q_consumers qu)))))
+             then ok s (if fx_nowait fx && nowait then [] else out1 c h (SQDeclareOk name (Z.to_N (q_len qu) mod two32) (N.of_nat (List.length (q_consumers qu)))))
              else refuse s (ChanErr PreconditionFailed 50 10)
       | None =>
         let s := set_queue s name (new_queue c dur excl ad) in
         let s := s <| exchanges ::= map (fun kv => if seqb (fst kv) ""%string then (fst kv, append_binding (snd kv) {| b_queue := name; b_key := name; b_args := [] |}) else kv) |> in
-        ok s (out1 c h (SQDeclareOk name 0 0))
+        ok s (if fx_nowait fx && nowait then [] else out1 c h (SQDeclareOk name 0 0))
       end
   | MQBind q ex key args nowait =>
     match alookup seqb ex (exchanges s) with
@@ -843,7 +868,7 @@ Definition handle_method (cfg : config) (fx : fixes) (s : state) (c h : N) (m : 
       let '(s, evs, r) := vhost_delete_queue (negb (fx_delete_checks_first fx)) s q ifunused ifempty in
       match r with
       | None => refuse s (ChanErr PreconditionFailed 50 40)
-      | Some n => ok s (evs ++ out1 c h (SQDeleteOk (n mod two32)))
+      | Some n => ok s (evs ++ (if fx_nowait fx && nowait then [] else out1 c h (SQDeleteOk (n mod two32))))
       end
     end
   (* basicMethods.go *)
@@ -865,7 +890,7 @@ Definition handle_method (cfg : config) (fx : fixes) (s : state) (c h : N) (m : 
     | Some _ =>
       let u := next_uid s in
       let '(conf, ch) := if ch_confirm ch then (Some (c, h, ch_ctag ch + 1), ch <| ch_ctag ::= N.succ |>) else (None, ch) in
-      let m := {| m_ex := ex; m_key := key; m_mand := mand; m_pers := false; m_has_header := false; m_hsize := 0; m_size := 0;
+      let m := {| m_mid := 0; m_ex := ex; m_key := key; m_mand := mand; m_pers := false; m_has_header := false; m_hsize := 0; m_size := 0;
                   m_body := []; m_dc := 0; m_conf := conf; m_expected := 0; m_actual := 0 |} in
       let s := s <| heap := aset N.eqb u m (heap s) |> <| next_uid := u + 1 |> in
       ok (set_chan s c h (ch <| ch_cur := Some u |>)) []
@@ -899,7 +924,7 @@ Definition handle_method (cfg : config) (fx : fixes) (s : state) (c h : N) (m : 
     | Some _ =>
       let s := consumer_stop s c h tag in
       let s := upd_chan s c h (fun ch => ch <| ch_consumers ::= filter (fun cm => negb (seqb (c_tag cm) tag)) |>) in
-      ok s (out1 c h (SCancelOk tag))
+      ok s (if fx_nowait fx && nowait then [] else out1 c h (SCancelOk tag))
     end
   | MGet q noack =>
     match queue_found s q with
@@ -927,13 +952,15 @@ Definition handle_method (cfg : config) (fx : fixes) (s : state) (c h : N) (m : 
           let dtag := match get_chan s c h with Some ch => ch_dtag ch + 1 | None => 0 end in
           let s := upd_chan s c h (fun ch => ch <| ch_dtag := dtag |>) in
           let s := if noack
-                   then upd_queue (s <| srv_total ::= Z.pred |>) q (fun qu => qu <| q_mtotal ::= Z.pred |>)
+                   then (if fx_noack_total_once fx
+                         then upd_queue (queue_ackmsg s q u <| srv_unacked ::= Z.succ |>) q (fun qu => qu <| q_munacked ::= Z.succ |>)
+                         else upd_queue (s <| srv_total ::= Z.pred |>) q (fun qu => qu <| q_mtotal ::= Z.pred |>))
                    else upd_queue (upd_chan s c h (fun ch => ch <| ch_unacked ::= fun l => l ++ [{| u_tag := dtag; u_ctag := ""%string; u_queue := q; u_msg := u |}] |>)
                                     <| srv_unacked ::= Z.succ |>) q (fun qu => qu <| q_munacked ::= Z.succ |>) in
           let s := upd_queue (s <| srv_ready ::= Z.pred |>) q (fun qu => qu <| q_mready ::= Z.pred |>) in
           let evs := match get_msg s u with
                      | Some m => out1 c h (SGetOk dtag (if fx_redelivered fx then 0 <? m_dc m else false) (m_ex m) (m_key m)
-                                                  (if fx_get_count fx then N.of_nat (List.length rest) else 1))
+                                                  (if fx_get_count fx then Z.to_N (q_len qu - 1) mod two32 else 1))
                                  ++ content_frames s c h u
                      | None => []
                      end in
@@ -1010,13 +1037,19 @@ Definition step (cfg : config) (fx : fixes) (s : state) (l : label) : state * li
     | Some _ =>
       let s := ensure_chan s c h in
       match m with
-      | MConnCloseOk => conn_close cfg fx s c
+      | MConnCloseOk => if fx_stage fx && negb (h =? 0) then apply_err s c h (refuse s (ConnErr CommandInvalid 10 51)) else conn_close cfg fx s c
       | MConnClose =>
+        if fx_stage fx && negb (h =? 0) then apply_err s c h (refuse s (ConnErr CommandInvalid 10 50)) else
         let '(s', evs) := conn_close cfg fx s c in (s', out1 c h SConnCloseOk ++ evs)
-      | _ => apply_err s c h (handle_method cfg fx s c h m)
+      | _ =>
+        let closing := match get_chan s c h with Some ch => match ch_status ch with ChClosing => true | _ => false end | None => false end in
+        if fx_discard_closing fx && closing && negb (is_chan_close m) then (s, [])
+        else if fx_stage fx && negb (Bool.eqb (is_conn_class m) (h =? 0))
+             then apply_err s c h (refuse s (ConnErr CommandInvalid (fst (meth_ids m)) (snd (meth_ids m))))
+             else apply_err s c h (handle_method cfg fx s c h m)
       end
     end
-  | LHeader c h size pers =>
+  | LHeader c h mid size pers =>
     match get_conn s c with
     | None => (s, [])
     | Some _ =>
@@ -1024,6 +1057,7 @@ Definition step (cfg : config) (fx : fixes) (s : state) (l : label) : state * li
       match get_chan s c h with
       | None => (s, [])
       | Some ch =>
+        if fx_discard_closing fx && (match ch_status ch with ChClosing => true | _ => false end) then (s, []) else
         match ch_cur ch with
         | None => apply_err s c h (refuse s (ConnErr FrameError 0 0))
         | Some u =>
@@ -1032,7 +1066,7 @@ Definition step (cfg : config) (fx : fixes) (s : state) (l : label) : state * li
           | Some m =>
             if m_has_header m then apply_err s c h (refuse s (ConnErr FrameError 0 0))
             else
-              let s := upd_msg s u (fun m => m <| m_has_header := true |> <| m_hsize := size |> <| m_pers := pers |>) in
+              let s := upd_msg s u (fun m => m <| m_has_header := true |> <| m_hsize := size |> <| m_pers := pers |> <| m_mid := mid |>) in
               if fx_empty_body fx && (size =? 0) then finish_publish fx s c h u else (s, [])
           end
         end
@@ -1046,6 +1080,7 @@ Definition step (cfg : config) (fx : fixes) (s : state) (l : label) : state * li
       match get_chan s c h with
       | None => (s, [])
       | Some ch =>
+        if fx_discard_closing fx && (match ch_status ch with ChClosing => true | _ => false end) then (s, []) else
         match ch_cur ch with
         | None => apply_err s c h (refuse s (ConnErr FrameError 0 0))
         | Some u =>
